@@ -1176,7 +1176,7 @@ class Definition(Macro):
     definition = None # type: Optional[str]
 
     def invoke(self, tex):
-        if not self.args: return self.definition
+        if not self.args: return expandDef(self.definition, [None])
 
         name = macroName(self)
         args = list(self.args)
